@@ -63,14 +63,17 @@ CHECKS = {
         "text": "PARTIAL: the property quantifies over every well-typed program and the whole type checker; it is decided by differential testing against gcc with the property's flags: typed templates (typedef "
                 "chains, struct/union/enum, every pair of arithmetic operand types under every operator, pointer arithmetic and comparison incl. qualified/void/typedef'd pointees, member access, calls incl. "
                 "function pointers and variadics, assignments and initialisers incl. null pointer constants and void*, casts, conditionals, compound assignment) and the grammar-directed units of C04, kept when gcc "
-                "accepts them, must get no Error diagnostic from binder, resolver or type checker; failures are shrunk under the oracle.  Theorems, for the model of TypeChecker::typesAreCompatible over type terms "
-                "with typedef names on either side (tied to the compiled relation on every ordered pair of declared objects of generated programs, four flag settings): C11_compatibility_symmetric (every pair) and "
-                "C11_compatibility_reflexive (every error-free type) with qualifiers respected; with qualifiers ignored the same laws are kernel-evaluated over an enumerated family of ~1600 types (bounded, "
-                "labelled as such).  Both laws were false of the pinned tree (typedef name on the left; void vs tag; a const pointer against itself).",
-        "design_ref": "DESIGN.md section 6, C11",
-        "note": "Trusted: gcc 12 as oracle of well-typedness; generators; Coq kernel incl. vm_compute; hand-written model C11Model.v (function parameter list forms reduced to empty/non-empty); extraction; harness. "
-                "Not modelled: operator constraints and assignability. Print Assumptions: closed under the global context.",
-        "technique": "Coq proofs of the algebraic laws of the compatibility relation (induction on fuel/type structure) on a tied model + differential testing against gcc on generated well-typed programs",
+                "accepts them, must get no Error diagnostic from binder, resolver or type checker; failures are shrunk under the oracle.  Theorems, for the models of TypeChecker::typesAreCompatible and "
+                "isTypeAssignableFromOtherType over type terms with typedef names on either side (tied to the compiled functions on every ordered pair of declared objects of generated programs): "
+                "C11_compatibility_symmetric and C11_compatibility_reflexive in all four flag settings; COMPLETENESS — C11_compatibility_complete: whatever C11 6.2.7 calls compatible the relation accepts; "
+                "C11_assignability_complete: whatever 6.5.16.1-1 allows in a simple assignment (arithmetic operands, compatible structures, pointers to compatible types with qualifier inclusion, void "
+                "pointers, the null pointer constant, pointer to _Bool, array-to-pointer conversion of the right operand) the assignability test accepts — these two functions cannot reject a well-typed "
+                "assignment, initialisation or argument of these forms.  The laws and the completeness were false of the pinned tree (typedef name on the left; void vs tag; a const pointer against "
+                "itself; no array decay; _Bool from pointer).",
+        "design_ref": "DESIGN.md section 6, C11 and section 12",
+        "note": "Trusted: gcc 12 as oracle of well-typedness; generators; Coq kernel; hand-written model C11Model.v (function parameter list forms reduced to empty/non-empty; enumerated types absent); the "
+                "specification relations compat_spec / assignable_spec transcribed from 6.2.7 and 6.5.16.1; extraction; harness. Not modelled: operator constraints. Print Assumptions: closed under the global context.",
+        "technique": "Coq proofs by structural induction: algebraic laws and completeness of the compatibility and assignability models against inductive specifications of C11 6.2.7 / 6.5.16.1 + differential testing against gcc",
     },
     "C12": {
         "text": "PARTIAL. Theorems about the model of TypedefNameTypeResolver::resolve over type terms, for EVERY environment of typedef declarations (any number, any chain length, any nesting of pointer/array/"
